@@ -2,7 +2,7 @@
     repaired model's prediction IS the executable spec's, so a case on which the
     implementation agrees with the repaired model satisfies the spec (and conversely). *)
 From Coq Require Import List String NArith Bool Lia.
-From DH Require Import Lib.CheckLib Model.Parser Proofs.ParserProofs Proofs.ParserFuel Check.C15Check.
+From DH Require Import Lib.CheckLib Model.Parser Proofs.ParserProofs Proofs.ParserFuel Proofs.ParserProxy Check.C15Check.
 Import ListNotations.
 
 Lemma run_stream_fixed_spec ts eof : run_stream fixed ts eof = run_spec ts eof.
@@ -11,15 +11,16 @@ Proof.
   rewrite parse_stream_fixed_spec by lia. reflexivity.
 Qed.
 
-Theorem agree_fixed_is_spec c : agree fixed c = spec_ok c.
+Theorem agree_fixed_is_spec c : agree fixed true c = spec_ok c.
 Proof.
   unfold agree, spec_ok. destruct (c_mode c).
   - now rewrite run_stream_fixed_spec.
   - reflexivity.
   - now rewrite !run_stream_fixed_spec.
+  - reflexivity.
 Qed.
 
-Theorem agree_fixed_spec c : agree fixed c = true -> spec_ok c = true.
+Theorem agree_fixed_spec c : agree fixed true c = true -> spec_ok c = true.
 Proof. now rewrite agree_fixed_is_spec. Qed.
 
 (** an observation that satisfies the spec is not a panic *)
@@ -45,6 +46,11 @@ Proof.
     destruct (parse_txn fixed (fuel_for (c_toks c)) (c_toks c)); cbn; congruence.
   - apply andb_true_iff in H. destruct H as [H _].
     apply obs_matches_outcome in H. rewrite H. apply S.
+  - unfold proxy_matches in H.
+    pose proof (proxy_total fixed (fuel_for (c_toks c)) (c_eof c) (c_toks c) fixed_chk) as P.
+    destruct (proxy_page fixed true (fuel_for (c_toks c)) (c_eof c) (c_toks c)) as [r passed]. cbn in P.
+    repeat (apply andb_true_iff in H; destruct H as [H ?]).
+    apply N.eqb_eq in H. rewrite <- H. destruct r; cbn; congruence.
 Qed.
 
 (** the fuel the evaluator gives the model, [S (length tokens)], is enough: no prediction of any
